@@ -275,14 +275,15 @@ static void sv_program(uint64_t seed)
         so = outcome([&] { return sa.compare(p1, c1, sb); }, sr);
       }
       R.count(so ? "sv_compare_pos_throws" : "sv_compare_pos_returns");
-      std::string cls = pos_class(p1, sa.size()) + (five ? "," + pos_class(p2, sb.size()) : "");
+      // std throws exactly when a position lies beyond its view
+      std::string cls = p1 > sa.size() ? "pos1>size" : (five && p2 > sb.size() ? "pos2>size" : "positions-in-range");
       if (no != so)
         R.violation("sv-compare-throws", cls,
                     "compare(" + std::to_string(p1) + "," + std::to_string(c1) + ",v" + (five ? "," + std::to_string(p2) + "," + std::to_string(c2) : "") +
                         ") sizes " + std::to_string(sa.size()) + "," + std::to_string(sb.size()) + ": nostd outcome " + std::to_string(no) +
                         " std outcome " + std::to_string(so));
       else if (so == 0 && sign(nr) != sign(sr))
-        R.violation("sv-compare", "positional-" + relation_class(as, bs),
+        R.violation("sv-compare", relation_class(std::string(sa.substr(p1, c1)), std::string(five ? sb.substr(p2, c2) : sb)),
                     "compare(" + std::to_string(p1) + "," + std::to_string(c1) + "," + vf::show(bs) + (five ? "," + std::to_string(p2) + "," + std::to_string(c2) : "") +
                         ") on " + vf::show(as) + " gave " + std::to_string(nr) + " std " + std::to_string(sr));
     }
@@ -292,7 +293,8 @@ static void sv_program(uint64_t seed)
       std::string z = bs;  // c_str() is terminated; strlen stops at an embedded NUL in both worlds
       size_t p1 = gen_pos(r, sa.size()), c1 = gen_count(r, sa.size());
       int nr = 0, sr = 0, no, so;
-      unsigned which = static_cast<unsigned>(r.below(3));
+      size_t cstr_count = 0;
+      unsigned which    = static_cast<unsigned>(r.below(3));
       if (which == 0)
       {
         no = outcome([&] { return na.compare(z.c_str()); }, nr);
@@ -307,15 +309,23 @@ static void sv_program(uint64_t seed)
       {
         // s points to an array of at least count2 characters: an exact-size copy
         size_t c2 = static_cast<size_t>(r.below(bs.size() + 1));
+        cstr_count = c2;
         vf::Buf zb(bs);
         no = outcome([&] { return na.compare(p1, c1, zb.data(), c2); }, nr);
         so = outcome([&] { return sa.compare(p1, c1, zb.data(), c2); }, sr);
       }
       R.count("sv_compare_cstr");
       if (no != so)
-        R.violation("sv-compare-throws", "cstr-overload-" + pos_class(p1, sa.size()), "overload " + std::to_string(which) + " outcome " + std::to_string(no) + " std " + std::to_string(so));
+        R.violation("sv-compare-throws", p1 > sa.size() ? "pos1>size" : "positions-in-range",
+                    "const char* overload " + std::to_string(which) + " outcome " + std::to_string(no) + " std " + std::to_string(so));
       else if (so == 0 && sign(nr) != sign(sr))
-        R.violation("sv-compare", "cstr-overload-" + std::to_string(which), "on " + vf::show(as) + " vs " + vf::show(bs) + " gave " + std::to_string(nr) + " std " + std::to_string(sr));
+      {
+        std::string lhs(which == 0 ? sa : sa.substr(p1, c1));
+        std::string rhs = which == 2 ? bs.substr(0, cstr_count) : std::string(z.c_str());
+        R.violation("sv-compare", relation_class(lhs, rhs),
+                    "const char* overload " + std::to_string(which) + " on " + vf::show(as) + " vs " + vf::show(bs) + " gave " + std::to_string(nr) + " std " +
+                        std::to_string(sr));
+      }
       // construction from a C string and from std::string
       nostd::string_view fromz(z.c_str()), froms(z);
       std::string_view sz(z.c_str());
@@ -390,24 +400,24 @@ struct Slice
 };
 
 template <class S>
-static void span_check(const S &s, const Slice &m, const char *how)
+static bool span_check(const S &s, const Slice &m, const char *how)
 {
   auto &R = vf::report();
   R.count("span_views_checked");
   if (s.size() != m.len || s.empty() != (m.len == 0))
   {
     R.violation("span-size", how, "size " + std::to_string(s.size()) + " want " + std::to_string(m.len));
-    return;
+    return false;
   }
   if (m.len && s.data() != m.ptr())
   {
     R.violation("span-data", how, "data() is not the start of the slice");
-    return;
+    return false;
   }
   if (s.end() - s.begin() != static_cast<std::ptrdiff_t>(m.len) || (m.len && s.begin() != m.ptr()))
   {
     R.violation("span-iter", how, "begin/end distance " + std::to_string(s.end() - s.begin()) + " want " + std::to_string(m.len));
-    return;
+    return false;
   }
   size_t i = 0;
   for (auto &e : s)
@@ -415,12 +425,16 @@ static void span_check(const S &s, const Slice &m, const char *how)
     if (e != m.at(i) || &e != m.ptr() + i || s[i] != m.at(i) || &s[i] != m.ptr() + i)
     {
       R.violation("span-element", how, "element " + std::to_string(i) + " of " + std::to_string(m.len));
-      return;
+      return false;
     }
     ++i;
   }
   if (i != m.len)
+  {
     R.violation("span-iter", how, "range-for visited " + std::to_string(i) + " of " + std::to_string(m.len));
+    return false;
+  }
+  return true;
 }
 
 template <size_t N>
@@ -434,17 +448,23 @@ static void span_static(Rng &r)
     v = static_cast<int>(r.below(1000));
   Slice m{store, 0, N};
   nostd::span<int, N> a(store->data(), N);
-  span_check(a, m, "static:ptr-count");
+  if (!span_check(a, m, "static:ptr-count"))
+    return;
   nostd::span<int, N> b(store->data(), store->data() + N);
-  span_check(b, m, "static:first-last");
+  if (!span_check(b, m, "static:first-last"))
+    return;
   nostd::span<const int, N> c(a);
-  span_check(c, m, "static:to-const");
+  if (!span_check(c, m, "static:to-const"))
+    return;
   nostd::span<int> d(a);
-  span_check(d, m, "static:to-dynamic");
+  if (!span_check(d, m, "static:to-dynamic"))
+    return;
   nostd::span<const int> e(c);
-  span_check(e, m, "static:const-to-dynamic");
+  if (!span_check(e, m, "static:const-to-dynamic"))
+    return;
   nostd::span<int, N> f(*store);
-  span_check(f, m, "static:container");
+  if (!span_check(f, m, "static:container"))
+    return;
   std::array<int, N> arr;
   int raw[N ? N : 1];
   for (size_t i = 0; i < N; ++i)
@@ -483,7 +503,8 @@ static void span_program(uint64_t seed)
     v = static_cast<int>(r.below(100000));
   std::vector<std::pair<nostd::span<int>, Slice>> views;
   views.emplace_back(nostd::span<int>(*store), Slice{store, 0, n});
-  span_check(views[0].first, views[0].second, "dynamic:container");
+  if (!span_check(views[0].first, views[0].second, "dynamic:container"))
+    return;
   {
     nostd::span<int> dflt;
     VF_CHECK(dflt.size() == 0 && dflt.empty() && dflt.data() == nullptr && dflt.begin() == dflt.end(), "span-ctor", "dynamic:default",
@@ -518,7 +539,8 @@ static void span_program(uint64_t seed)
       Slice sm{m.store, m.off + off, cnt};
       nostd::span<int> s = r.coin() ? nostd::span<int>(cur.first.data() + off, cnt)
                                     : nostd::span<int>(cur.first.data() + off, cur.first.data() + off + cnt);
-      span_check(s, sm, "dynamic:sub-view");
+      if (!span_check(s, sm, "dynamic:sub-view"))
+        continue;  // go on from the model: the wrong view does not join the pool
       if (cnt == 0)
         R.count("span_empty_subviews");
       if (m.off + off + cnt == m.store->size())
@@ -535,6 +557,8 @@ static void span_program(uint64_t seed)
       span_check(assigned, m, "dynamic:assign");
       nostd::span<const int> cs(cur.first);
       span_check(cs, m, "dynamic:to-const");
+      nostd::span<const int> cs2(cs);
+      span_check(cs2, m, "dynamic:const-copy");
     }
     else if (kind < 70)
     {
@@ -646,6 +670,7 @@ static void uptr_program(uint64_t seed)
     uint64_t h  = used;
     std::string trace;
     auto check = [&](const std::string &op) {
+      bool recovered = false;
       for (size_t i = 0; i < N; ++i)
       {
         if (observe(a[i]) != observe(b[i]) || (a[i].get() == nullptr) != (b[i].get() == nullptr) ||
@@ -654,17 +679,21 @@ static void uptr_program(uint64_t seed)
           R.violation("uptr-observers", op,
                       "after " + trace + ": handle " + std::to_string(i) + " observes " + std::to_string(observe(a[i])) + " std " +
                           std::to_string(observe(b[i])));
-          // continue from the model's state
+          // go on from the model's state; whatever the handle held is given up, not destroyed (it may be owned twice)
+          (void)a[i].release();
           a[i].reset(b[i] ? mk(0, b[i]->id, b[i]->kind() == 1) : nullptr);
+          recovered = true;
         }
         if (a[i] && a[i]->universe != 0)
           R.violation("uptr-observers", op, "handle points into the other universe");
       }
-      if (Obj::live[0] - live0[0] != Obj::live[1] - live0[1])
+      int d0 = Obj::live[0] - live0[0], d1 = Obj::live[1] - live0[1];
+      if (d0 != d1)
       {
-        R.violation("uptr-live-count", op,
-                    "after " + trace + ": live objects " + std::to_string(Obj::live[0] - live0[0]) + " std " + std::to_string(Obj::live[1] - live0[1]));
-        live0[0] = Obj::live[0] - (Obj::live[1] - live0[1]);  // re-base so one defect is reported once
+        if (!recovered)
+          R.violation("uptr-live-count", d0 > d1 ? "object-outlives-its-owner" : "object-destroyed-while-owned",
+                      "after " + trace + ": live objects " + std::to_string(d0) + " std " + std::to_string(d1));
+        live0[0] = Obj::live[0] - d1;  // re-base so one defect is reported once
       }
       if (Obj::over_destroyed)
       {
@@ -847,7 +876,7 @@ static void uptr_program(uint64_t seed)
         bool ok = (a[i] == a[j]) == (b[i] == b[j]) && (a[i] != a[j]) == (b[i] != b[j]) && (a[i] == nullptr) == (b[i] == nullptr) &&
                   (nullptr == a[i]) == (nullptr == b[i]) && (a[i] != nullptr) == (b[i] != nullptr) && (nullptr != a[i]) == (nullptr != b[i]);
         VF_CHECK(ok, "uptr-compare", i == j ? "same-handle" : "two-handles", "comparison operators");
-        if (b[i])
+        if (b[i] && a[i])
           VF_CHECK((*a[i]).id == (*b[i]).id && a[i]->id == b[i]->id && a[i].get()->kind() == b[i].get()->kind(), "uptr-observers", "deref",
                    "operator* / operator->");
       }
@@ -862,7 +891,7 @@ static void uptr_program(uint64_t seed)
         std::unique_ptr<Obj[]> y(new Obj[n]);
         for (size_t k = 0; k < n; ++k)
           x.get()[k].id = y.get()[k].id = static_cast<int>(k + 100);
-        VF_CHECK(Obj::live[0] - live0[0] == Obj::live[1] - live0[1], "uptr-live-count", "array-construct", "array of " + std::to_string(n));
+        VF_CHECK(Obj::live[0] - live0[0] == Obj::live[1] - live0[1], "uptr-live-count", "array-elements-constructed", "array of " + std::to_string(n));
         switch (r.below(4))
         {
           case 0:
@@ -901,7 +930,8 @@ static void uptr_program(uint64_t seed)
   // everything went out of scope: both universes are back where they started
   if (Obj::live[0] != live0[0] || Obj::live[1] != live0[1])
   {
-    R.violation("uptr-live-count", "scope-exit", "objects left alive: " + std::to_string(Obj::live[0] - live0[0]) + " std " + std::to_string(Obj::live[1] - live0[1]));
+    R.violation("uptr-live-count", Obj::live[0] - live0[0] > Obj::live[1] - live0[1] ? "object-outlives-its-owner" : "object-destroyed-while-owned",
+                "at scope exit: objects left alive: " + std::to_string(Obj::live[0] - live0[0]) + " std " + std::to_string(Obj::live[1] - live0[1]));
     Obj::live[0] = Obj::live[1] = 0;
   }
 }
@@ -972,6 +1002,7 @@ static void sptr_program(uint64_t seed)
     uint64_t h  = used + 100;
     std::string trace;
     auto check = [&](const std::string &op) {
+      bool recovered = false;
       for (size_t i = 0; i < N; ++i)
       {
         if (observe(a[i]) != observe(b[i]) || (a[i].get() == nullptr) != (b[i].get() == nullptr) ||
@@ -980,24 +1011,31 @@ static void sptr_program(uint64_t seed)
           R.violation("sptr-observers", op,
                       "after " + trace + ": handle " + std::to_string(i) + " observes " + std::to_string(observe(a[i])) + " std " +
                           std::to_string(observe(b[i])));
-          a[i] = nullptr;
-          b[i] = nullptr;
+          // go on from a state both sides can agree on
+          a[i]      = nostd::shared_ptr<Obj>();
+          b[i]      = std::shared_ptr<Obj>();
+          recovered = true;
         }
       }
       // identity structure: which handles share an object
-      for (size_t i = 0; i < used; ++i)
+      for (size_t i = 0; i < used && !recovered; ++i)
         for (size_t j = i + 1; j < used; ++j)
           if ((a[i] == a[j]) != (b[i] == b[j]) || (a[i] != a[j]) != (b[i] != b[j]))
           {
             R.violation("sptr-identity", op, "after " + trace + ": handles " + std::to_string(i) + "," + std::to_string(j) + " share differently from std");
-            a[j] = nullptr;
-            b[j] = nullptr;
+            a[j]      = nostd::shared_ptr<Obj>();
+            b[j]      = std::shared_ptr<Obj>();
+            recovered = true;
           }
-      if (Obj::live[0] - live0[0] != Obj::live[1] - live0[1])
+      int d0 = Obj::live[0] - live0[0], d1 = Obj::live[1] - live0[1];
+      if (d0 != d1)
       {
-        R.violation("sptr-live-count", op,
-                    "after " + trace + ": live objects " + std::to_string(Obj::live[0] - live0[0]) + " std " + std::to_string(Obj::live[1] - live0[1]));
-        live0[0] = Obj::live[0] - (Obj::live[1] - live0[1]);
+        // a lost reference shows when std destroys the object, possibly many operations later: the
+        // class says which way the count is off, the witness names the operation history
+        if (!recovered)
+          R.violation("sptr-live-count", d0 > d1 ? "object-outlives-its-owners" : "object-destroyed-while-owned",
+                      "after " + trace + ": live objects " + std::to_string(d0) + " std " + std::to_string(d1));
+        live0[0] = Obj::live[0] - d1;  // re-base so one defect is reported once
       }
       if (Obj::over_destroyed)
       {
@@ -1042,11 +1080,11 @@ static void sptr_program(uint64_t seed)
           // a = a is valid for std::shared_ptr (no effect); probed in a child process
           bool move = r.coin(), shared = r.coin();
           opn      = std::string(move ? "self-move-assign" : "self-copy-assign") + (shared ? "-shared" : "-sole-owner");
-          if (r.chance(1, 8))
+          if (r.chance(1, 60))  // a fork under ASan costs milliseconds
           {
             int rc = sptr_self_assign_probe(move, shared);
-            R.count("sptr_self_assign_probes");
-            if (rc != 0)
+            R.count(rc < 0 ? "sptr_self_assign_probe_fork_failed" : "sptr_self_assign_probes");  // no child, no verdict
+            if (rc > 0)
               R.violation("sptr-self-assign", opn.substr(5),
                           "a = " + std::string(move ? "std::move(a)" : "a") + (shared ? " with a second owner" : " as sole owner") +
                               ": std::shared_ptr is unchanged, nostd::shared_ptr child verdict " + std::to_string(rc) +
@@ -1169,7 +1207,7 @@ static void sptr_program(uint64_t seed)
         bool ok = (a[i] == nullptr) == (b[i] == nullptr) && (nullptr == a[i]) == (nullptr == b[i]) && (a[i] != nullptr) == (b[i] != nullptr) &&
                   (nullptr != a[i]) == (nullptr != b[i]);
         VF_CHECK(ok, "sptr-compare", "nullptr", "comparison with nullptr");
-        if (b[i])
+        if (b[i] && a[i])
           VF_CHECK((*a[i]).id == (*b[i]).id && a[i]->id == b[i]->id && a[i].get()->kind() == b[i].get()->kind(), "sptr-observers", "deref",
                    "operator* / operator->");
       }
@@ -1184,7 +1222,8 @@ static void sptr_program(uint64_t seed)
   }
   if (Obj::live[0] != live0[0] || Obj::live[1] != live0[1])
   {
-    R.violation("sptr-live-count", "scope-exit", "objects left alive: " + std::to_string(Obj::live[0] - live0[0]) + " std " + std::to_string(Obj::live[1] - live0[1]));
+    R.violation("sptr-live-count", Obj::live[0] - live0[0] > Obj::live[1] - live0[1] ? "object-outlives-its-owners" : "object-destroyed-while-owned",
+                "at scope exit: objects left alive: " + std::to_string(Obj::live[0] - live0[0]) + " std " + std::to_string(Obj::live[1] - live0[1]));
     Obj::live[0] = Obj::live[1] = 0;
   }
 }
@@ -1524,8 +1563,8 @@ static void variant_program(uint64_t seed)
       }
       if (Obj::live[0] - live0[0] != Obj::live[1] - live0[1])
       {
-        R.violation("var-live-count", op,
-                    "after " + trace + ": live alternatives " + std::to_string(Obj::live[0] - live0[0]) + " std " + std::to_string(Obj::live[1] - live0[1]));
+        R.violation("var-live-count", Obj::live[0] - live0[0] > Obj::live[1] - live0[1] ? "alternative-not-destroyed" : "alternative-destroyed-twice-or-early",
+                    "after " + trace + " (" + op + "): live alternatives " + std::to_string(Obj::live[0] - live0[0]) + " std " + std::to_string(Obj::live[1] - live0[1]));
         live0[0] = Obj::live[0] - (Obj::live[1] - live0[1]);
       }
     };
@@ -1605,10 +1644,6 @@ static void variant_program(uint64_t seed)
       else if (kind < 36)
       {
         // copy between variants (assignment and construction); self-assignment is valid and has no effect
-        if (b[i].index() == 2 && i != j)
-        {
-          // a Tracked keeps its universe, so copies stay within their own side by construction
-        }
         if (r.coin())
         {
           opn  = i == j ? "copy-assign-self" : (a[i].index() == a[j].index() ? "copy-assign-same-index" : "copy-assign-other-index");
@@ -1714,7 +1749,8 @@ static void variant_program(uint64_t seed)
   }
   if (Obj::live[0] != live0[0] || Obj::live[1] != live0[1])
   {
-    R.violation("var-live-count", "scope-exit", "alternatives left alive: " + std::to_string(Obj::live[0] - live0[0]) + " std " + std::to_string(Obj::live[1] - live0[1]));
+    R.violation("var-live-count", Obj::live[0] - live0[0] > Obj::live[1] - live0[1] ? "alternative-not-destroyed" : "alternative-destroyed-twice-or-early",
+                "at scope exit: alternatives left alive: " + std::to_string(Obj::live[0] - live0[0]) + " std " + std::to_string(Obj::live[1] - live0[1]));
     Obj::live[0] = Obj::live[1] = 0;
   }
 }
